@@ -210,7 +210,8 @@ Theorem crashed_batch_is_rolled_back :
     (forall r', In r' (ScanQuiescentProofs.recs_of (its1 ++ its2)) -> exists s', Recovery.idx_find (Codec.r_key r') (Recovery.o_idx o) = Some (ScanQuiescentProofs.entry_of v r' s')) /\
     Recovery.o_count o = N.of_nat (length (ScanQuiescentProofs.recs_of (its1 ++ its2))) /\
     (forall b, Constants.FEOX_DATA_START_BLOCK <= b < total ->
-               (FreeSpaceProofs.free (Recovery.o_fs o) b <-> ~ ScanQuiescentProofs.covered v Constants.FEOX_DATA_START_BLOCK (its1 ++ ScanQuiescentProofs.IMark n :: its2) b)).
+               (FreeSpaceProofs.free (Recovery.o_fs o) b <-> ~ ScanQuiescentProofs.covered v Constants.FEOX_DATA_START_BLOCK (its1 ++ ScanQuiescentProofs.IMark n :: its2) b)) /\
+    img' = ReplayRollbackProofs.rolled_back img jgen jslot s n.
 Proof. exact ReplayRollbackProofs.crashed_batch_is_rolled_back. Qed.
 Check crashed_batch_is_rolled_back :
   forall c img m jgen jslot its1 r its2,
@@ -235,7 +236,8 @@ Check crashed_batch_is_rolled_back :
     (forall r', In r' (ScanQuiescentProofs.recs_of (its1 ++ its2)) -> exists s', Recovery.idx_find (Codec.r_key r') (Recovery.o_idx o) = Some (ScanQuiescentProofs.entry_of v r' s')) /\
     Recovery.o_count o = N.of_nat (length (ScanQuiescentProofs.recs_of (its1 ++ its2))) /\
     (forall b, Constants.FEOX_DATA_START_BLOCK <= b < total ->
-               (FreeSpaceProofs.free (Recovery.o_fs o) b <-> ~ ScanQuiescentProofs.covered v Constants.FEOX_DATA_START_BLOCK (its1 ++ ScanQuiescentProofs.IMark n :: its2) b)).
+               (FreeSpaceProofs.free (Recovery.o_fs o) b <-> ~ ScanQuiescentProofs.covered v Constants.FEOX_DATA_START_BLOCK (its1 ++ ScanQuiescentProofs.IMark n :: its2) b)) /\
+    img' = ReplayRollbackProofs.rolled_back img jgen jslot s n.
 Print Assumptions crashed_batch_is_rolled_back.
 (* non-vacuity: a 20-block file -- free block, a two-block record named by an ACTIVE journal record
    in slot 0, a one-block record -- meets the premises; the open reports the second record only *)
